@@ -62,3 +62,41 @@ CLAIMED.update({
             "trunc(8*interval) whole seconds saturated into u64 (exact).",
             DAEMON_NOTE, "DESIGN.md section 6, C10"),
 })
+
+SHM_NOTE = ("Trusted: Coq kernel; the single-writer release/acquire machine of Shm/Machine.v as the model of the Rust/C11 memory model for this protocol (plain record "
+            "accesses treated as relaxed per 8-byte cell; writer incarnations ordered by the OS); the shim and the engine (one thread runs between two announced accesses); "
+            "the measured configuration (orderings/fences/copy order read off the access trace of the running code) being what the compiled code does; extraction "
+            "(ExtrOcamlBasic only). Crash = the writer stops between two of its accesses (process death modelled, not exercised with kill -9).")
+
+CLAIMED.update({
+    "C02": ("Coq: executable release/acquire machine; refutation theorems for the three unsafe configurations, rejection witness for the safe one, accept condition; "
+            "measured configuration must satisfy safe_cfg (generated Current_C02.v, re-proved every run); SC schedule correspondence of the real write()/snapshot() "
+            "incl. all small-scope placements; bounded search of the RA machine for an accepted mixture when the side condition fails",
+            "Machine-checked: C02_unfenced_refuted / C02_writerfence_only_refuted / C02_readerfence_only_refuted (the model admits an accepted mixture without both fences), "
+            "C02_fenced_rejects_torn_read, C02_accept_condition, C02_fixed_cfg_is_safe, and on every run safe_cfg(current_cfg) for the configuration measured from the code. "
+            "PARTIAL: the general theorem (every safe configuration, every log, every legal choice sequence: an accepted record is one completed publication) is stated in DESIGN.md "
+            "appendix A.2 and rehearsed there, but is not yet proved for the executable machine; until then the all-executions claim rests on the side condition + the witnesses + "
+            "the exhaustive small-scope and random schedule correspondence.",
+            SHM_NOTE, "DESIGN.md section 6, C02"),
+    "C03": ("Coq: reader-step theorems (cache changes only on accept; accept condition) + computed examples (catch-up, wrap) + schedule correspondence of the real code with "
+            "monotonicity/freshness oracles incl. jumps across the 16-bit wrap and readers that skip >= 16384 publications",
+            "Machine-checked: C03_cache_changes_only_on_accept, C03_accept_condition (for every log and every choice at every step). PARTIAL: monotonicity of publication indices and "
+            "freshness under an idle writer are checked on every explored schedule (model = implementation, oracle on the implementation) but not yet proved for all schedules.",
+            SHM_NOTE, "DESIGN.md section 6, C03"),
+    "C04": ("Coq proof of header-validity preservation under every writer step/crash/restart, in-place take-over, adoption of an odd generation, generation never 0 + schedule "
+            "correspondence with crash at every access and restart through the real ShmWriter::new",
+            "Machine-checked: C04_valid_step, C04_crash_stores_nothing, C04_takeover_in_place (the only store of a restart over a valid segment is version := 1), "
+            "C04_adopts_odd_generation, C04_generation_never_zero, computed examples (death during the first publication; death mid-update with an attached reader). "
+            "Clauses (a)/(b) (complete records in order across restarts) are checked on every explored crash schedule, proved only through the C02/C03 partial theorems.",
+            SHM_NOTE + " Crash inside ShmWriter::new/wipe (file creation) is covered by the C16 file corpus, not by the scheduler.", "DESIGN.md section 6, C04"),
+    "C18": ("Coq proof (strictly decreasing Z-valued measure over reader steps, for every log and every choice at every step) + measured retry budget on the running code "
+            "(stalled writer / continuously publishing writer) + schedule correspondence",
+            "Machine-checked: C18_step_decreases, C18_bounded (a call ends within 2 + R*(cells+3) accesses whatever the writer does), C18_early_return (odd/zero/unchanged generation: "
+            "previous snapshot after 2 accesses); R and the per-iteration access count are measured from the real snapshot() on every run (9000002 accesses, result Err).",
+            SHM_NOTE, "DESIGN.md section 6, C18"),
+    "C19": ("Coq proof (lia over the u32 range) + correspondence of the real release binary started with --max-drift-rate in a private mount namespace",
+            "Machine-checked: C19_exact_or_rejected, C19_unrepresentable_rejected, C19_representable_accepted, C19_default, C19_published_verbatim, C19_wrapping_refuted (the pre-fix "
+            "conversion published 704 ppb for 4294968 ppm).",
+            "Trusted: Coq kernel; the release binary built from /repo without any cfg; unshare -m + tmpfs on /run; clap's parsing observed only through the binary.",
+            "DESIGN.md section 6, C19"),
+})
